@@ -121,10 +121,12 @@ Section Obs.
       if negb (c + n <=? len) then None
       else if negb (list_eqb Result_eqb (st_results s) (expected_results h c (N.to_nat n))) then None
       else if negb failing then
+        (* nothing is saved while the revision is 0: the store keeps what it held *)
+        let hs' := if o_rev T =? 0 then hs else h' in
         if negb (st_err s) && negb (st_degraded s) && o_eq (st_pub s) T && oo_eq (st_final s) T
            && (if o_rev T =? 0 then oo_none (st_saved s) else oo_eq (st_saved s) T)
-           && expected_store h' (st_store s)
-        then Some (TRK (c + n) h' h') else None
+           && expected_store hs' (st_store s)
+        then Some (TRK (c + n) h' hs') else None
       else
         let hs' := if st_mode s =? 1 then hs else h' in
         if st_err s && st_degraded s && o_eq (st_pub s) (Sk h) && oo_none (st_final s)
@@ -150,6 +152,51 @@ End Obs.
 
 Arguments Step : clear implicits.
 Arguments ST {Ob}.
+
+(* ---- a run of the frame along a scenario ------------------------------------------------ *)
+
+(* what a scenario asks for: ApplyBatch of the next n entries with a store mode, or a restart
+   whose replay starts at log position c' *)
+Inductive cmdstep := CBatch (n mode : N) | CRestart (c' : N).
+
+Definition take_entries {E} (log : list E) (c n : N) : list E :=
+  firstn (N.to_nat n) (skipn (N.to_nat c) log).
+
+Section Run.
+  Context {St C : Type}.
+  Variable revision applied : St -> N.
+  Variable set_app : St -> N -> St.
+  Variable set_ck : St -> bytes -> St.
+  Variable mutate : St -> N -> N -> C -> St * Result.
+  Variable ck : St -> bytes.
+  Variable empty : St.
+  Variable log : list (N * N * C).
+
+  Definition batch_step (m : Machine St) (cursor n mode : N) : Machine St * Step St :=
+    let '(m', out) := ApplyBatch revision applied set_app set_ck mutate ck m mode (take_entries log cursor n) in
+    (m', ST 0 n mode (bo_results out) (bo_err out) (bo_final out) (bo_saved out)
+            (m_state m') (m_store m') (m_degraded m')).
+
+  Definition restart_step (m : Machine St) (c' : N) : Machine St * Step St :=
+    let m' := restart empty m in
+    (m', ST 1 c' 0 [] false None None (m_state m') (m_store m') (m_degraded m')).
+
+  (* the observations of the machine along the scenario; a failed batch does not move the cursor *)
+  Fixpoint run_cmds (m : Machine St) (cursor : N) (cmds : list cmdstep) : list (Step St) :=
+    match cmds with
+    | [] => []
+    | CBatch n mode :: r =>
+      let '(m', o) := batch_step m cursor n mode in
+      o :: run_cmds m' (if st_err o then cursor else cursor + n) r
+    | CRestart c' :: r =>
+      let '(m', o) := restart_step m c' in
+      o :: run_cmds m' c' r
+    end.
+End Run.
+
+(* the scenario a list of observed steps followed *)
+Definition cmds_of_steps {Ob} (ss : list (Step Ob)) : list cmdstep :=
+  map (fun s => if st_kind s =? 0 then CBatch (st_n s) (st_mode s) else CRestart (st_n s)) ss.
 
 (* the property on one case's observations *)
 Definition monitor_gen {O} (o_rev o_applied : O -> N) (o_valid o_ckok : O -> bool)
@@ -219,9 +266,6 @@ Definition C18_monitor (c : c18_case) : N :=
    states are compared but for that field *)
 Definition ck0 (_ : CState) : bytes := [].
 
-Definition take_entries (log : list Entry) (c n : N) : list Entry :=
-  firstn (N.to_nat n) (skipn (N.to_nat c) log).
-
 Definition ostate_matches (c : c18_case) (m : option CState) (o : option sref) : bool :=
   match m, o with
   | None, None => true
@@ -233,31 +277,32 @@ Definition results_match (a b : list Result) : bool :=
   list_eqb (fun x y => (r_class x =? r_class y) && bytes_eqb (r_reason x) (r_reason y) && (r_rev x =? r_rev y)
                        && (r_applied x =? r_applied y) && TSums_eqb (r_trans x) (r_trans y)) a b.
 
-(* run the model along the observed steps; true when every observation agrees *)
-Fixpoint model_agrees (c : c18_case) (m : Machine CState) (cursor : N) (ss : list (Step sref)) : bool :=
-  match ss with
-  | [] => true
-  | s :: rest =>
-    if st_kind s =? 0 then
-      let '(m', out) := c_ApplyBatch ck0 m (st_mode s) (take_entries (c_log c) cursor (st_n s)) in
-      results_match (bo_results out) (st_results s)
-      && Bool.eqb (bo_err out) (st_err s)
-      && ostate_matches c (bo_final out) (st_final s)
-      && ostate_matches c (bo_saved out) (st_saved s)
-      && CState_body_eqb (m_state m') (resolve c (st_pub s))
-      && ostate_matches c (m_store m') (st_store s)
-      && Bool.eqb (m_degraded m') (st_degraded s)
-      && model_agrees c m' (if bo_err out then cursor else cursor + st_n s) rest
-    else
-      let m' := c_restart m in
-      negb (st_err s)
-      && CState_body_eqb (m_state m') (resolve c (st_pub s))
-      && ostate_matches c (m_store m') (st_store s)
-      && Bool.eqb (m_degraded m') (st_degraded s)
-      && model_agrees c m' (st_n s) rest
+Definition step_matches (c : c18_case) (m : Step CState) (o : Step sref) : bool :=
+  (st_kind m =? st_kind o) && (st_n m =? st_n o) && (st_mode m =? st_mode o)
+  && results_match (st_results m) (st_results o)
+  && Bool.eqb (st_err m) (st_err o)
+  && ostate_matches c (st_final m) (st_final o)
+  && ostate_matches c (st_saved m) (st_saved o)
+  && CState_body_eqb (st_pub m) (resolve c (st_pub o))
+  && ostate_matches c (st_store m) (st_store o)
+  && Bool.eqb (st_degraded m) (st_degraded o).
+
+(* the model's observations along the scenario the implementation followed *)
+Definition model_steps (c : c18_case) (ss : list (Step sref)) : list (Step CState) :=
+  run_cmds s_rev s_applied set_applied set_checksum applyMutation ck0 empty_state
+           (map entry_tuple (c_log c)) c_fresh 0 (cmds_of_steps ss).
+
+Fixpoint all2 {A B} (f : A -> B -> bool) (a : list A) (b : list B) : bool :=
+  match a, b with
+  | [], [] => true
+  | x :: a', y :: b' => f x y && all2 f a' b'
+  | _, _ => false
   end.
+
+Definition model_agrees (c : c18_case) (ss : list (Step sref)) : bool :=
+  all2 (step_matches c) (model_steps c ss) ss.
 
 Definition C18_mismatch (c : c18_case) : bool :=
   negb (CState_body_eqb empty_state (resolve c (c_init c))
-        && model_agrees c c_fresh 0 (c_ref c)
-        && forallb (model_agrees c c_fresh 0) (c_scens c)).
+        && model_agrees c (c_ref c)
+        && forallb (model_agrees c) (c_scens c)).
